@@ -47,11 +47,13 @@ LEAN_MODULES = ["KrroodVerif.Props.C17"]
 THEOREMS = [
     "KrroodVerif.CD.C17_classify",
     "KrroodVerif.CD.C17_classify_partial",
+    "KrroodVerif.CD.C17_classify_current",
     "KrroodVerif.CD.C17_cex_nested",
     "KrroodVerif.CD.C17_cex_optional_spelling",
     "KrroodVerif.CD.C17_edges",
     "KrroodVerif.CD.C17_edges_perm",
     "KrroodVerif.CD.C17_edges_partial",
+    "KrroodVerif.CD.C17_edges_current",
     "KrroodVerif.CD.C17_views_pure",
     "KrroodVerif.CD.C17_views_partial",
     "KrroodVerif.CD.C17_cex_subdiagram",
